@@ -97,6 +97,8 @@ def gen_scenario(r, n_tests=None, allow_signal=True, allow_hang=True):
         # one test group with a max-threads limit, and threads-required on some tests
         sc["groups"] = dict(name="g1", max_threads=r.choice([1, 2]), members=r.choice(["_a", "_b", "_c"]),
                             heavy=r.choice([None, "_a", "_c"]), heavy_weight=r.choice([2, 2, "num-test-threads"]))
+        if r2.random() < 0.4:
+            sc["groups"]["tool"] = "vtool"      # the group comes from a tool's config file
     if r.random() < 0.3:
         sc["priorities"] = dict(high=r.choice(["_a", "_b", "_c"]), value=r.choice([10, 50]), low=r.choice(["_a", "_b", "_c"]))
     if allow_signal and r.random() < 0.15:
@@ -153,8 +155,9 @@ def nextest_config(sc, profile):
     lines.append(f'[profile.{profile}.junit]\npath = "junit.xml"')
     g = sc.get("groups")
     if g:
-        lines.insert(0, f'[test-groups]\n{g["name"]} = {{ max-threads = {g["max_threads"]} }}\n')
-        lines.append(f'[[profile.{profile}.overrides]]\nfilter = "test({g["members"]})"\ntest-group = "{g["name"]}"')
+        if not g.get("tool"):
+            lines.insert(0, f'[test-groups]\n{g["name"]} = {{ max-threads = {g["max_threads"]} }}\n')
+            lines.append(f'[[profile.{profile}.overrides]]\nfilter = "test({g["members"]})"\ntest-group = "{g["name"]}"')
         if g.get("heavy"):
             lines.append(f'[[profile.{profile}.overrides]]\nfilter = "test({g["heavy"]})"\nthreads-required = {json.dumps(g["heavy_weight"])}')
     if sc.get("retry_only"):
@@ -167,6 +170,23 @@ def nextest_config(sc, profile):
         lines.append(f'[[profile.{profile}.overrides]]\nfilter = "test({p["high"]})"\npriority = {p["value"]}')
         lines.append(f'[[profile.{profile}.overrides]]\nfilter = "test({p["low"]})"\npriority = -{p["value"]}')
     return "\n".join(lines) + "\n"
+
+
+def group_name(g):
+    """a group defined by a tool's config file is named @tool:<tool>:<name>, everywhere it is named"""
+    return f'@tool:{g["tool"]}:{g["name"]}' if g.get("tool") else g["name"]
+
+
+def tool_configs(sc):
+    """the group (and the override that puts tests into it) defined by a tool's config file instead of the
+    repository's: --tool-config-file <tool>:<path>"""
+    g = sc.get("groups")
+    if not g or not g.get("tool"):
+        return ()
+    name = group_name(g)
+    return ((g["tool"],
+             f'[test-groups]\n"{name}" = {{ max-threads = {g["max_threads"]} }}\n\n'
+             f'[[profile.default.overrides]]\nfilter = "test({g["members"]})"\ntest-group = "{name}"\n'),)
 
 
 def ncpu():
@@ -291,7 +311,7 @@ def weight(sc, t):
 def group_of(sc, t):
     g = sc.get("groups")
     if g and g["members"] in t["name"]:
-        return g["name"]
+        return group_name(g)
     return None
 
 
@@ -330,7 +350,7 @@ def run(rig, sc, timeout=60):
         sigs = [(trig, signal.SIGINT)]
     res = rig.run(puppet_scenario(sc), nextest_config(sc, profile), args=cli_args(sc, profile), signals=sigs,
                   timeout=timeout,
-                  env_extra=env_for(sc))
+                  env_extra=env_for(sc), tool_configs=tool_configs(sc))
     res["profile"] = profile
     jp = os.path.join(e2e.PUPPET, "target", "nextest", profile, "junit.xml")
     res["junit_path"] = jp
@@ -803,6 +823,12 @@ def directed(prop):
         out.append(dict(tests=tests2, retries=1, delay_ms=0, backoff="fixed", failfast="noff", threads=8, filter=None,
                         run_ignored="default", sigint_at=None, priorities=None,
                         groups=dict(name="g1", max_threads=1, members="_b", heavy="t01_b", heavy_weight=8)))
+        # the group is defined by a tool's config file: its name is @tool:vtool:serial wherever it is named
+        tests2t = [dict(t, name=t["name"].replace("_b", "_t")) for t in tests2]
+        out.append(dict(tests=tests2t, retries=0, delay_ms=0, backoff="fixed", failfast="noff", threads=4, filter=None,
+                        run_ignored="default", sigint_at=None, priorities=None,
+                        groups=dict(name="serial", tool="vtool", max_threads=2, members="_t", heavy=None,
+                                    heavy_weight=2)))
     if prop == "C08":
         # --no-capture serialises the run under every message format
         for fmt in ("human", "libtest-json", "libtest-json-plus"):
@@ -984,6 +1010,11 @@ def stage(chk, prop, tier, seed, n_quick=14, n_thorough=120, par=4, gen=None):
     for sc, res in zip(scs, results):
         chk.count("e2e_general_runs")
         chk.count("e2e_failfast=" + sc["failfast"])
+        if sc.get("groups"):
+            chk.count("e2e_group_runs=" + ("tool-config" if sc["groups"].get("tool") else "repo-config"))
+            seen = {i["rec"]["env"].get("NEXTEST_TEST_GROUP") for _, _, _, i in alive_intervals(sc, res)}
+            if any(x and x.startswith("@tool:") for x in seen):
+                chk.count("e2e_runs_with_tool_group_seen_in_child_env")
         if cancelled(res):
             chk.count("e2e_cancelled_runs")
         why = oracle(sc, res)
